@@ -7,6 +7,7 @@ package mtu
 import (
 	"errors"
 	"fmt"
+	"math"
 	"strconv"
 
 	"github.com/insomniacslk/dhcp/dhcpv4"
@@ -36,6 +37,10 @@ func setup4(args ...string) (handler.Handler4, error) {
 	var err error
 	if mtu, err = strconv.Atoi(args[0]); err != nil {
 		return nil, fmt.Errorf("invalid mtu: %v", args[0])
+	}
+	// the option carries an unsigned 16-bit number: any other value would be announced as a different MTU
+	if mtu < 0 || mtu > math.MaxUint16 {
+		return nil, fmt.Errorf("invalid mtu: %v (want 0 to %d)", args[0], math.MaxUint16)
 	}
 	log.Infof("loaded mtu %d.", mtu)
 	return Handler4, nil
